@@ -47,6 +47,13 @@ def gen(rng, tier, ctx):
                       "sdk": (None, None, None),
                       "comps": [("activity-alias", names[0], True, [[MAIN, LAUNCHER]], True), ("activity", names[1], True, [[MAIN, LAUNCHER]], True)],
                       "features": [], "libs": [], "ns_on_tags": False})
+    cases.append({"package": "org.demo.app", "vcode": 1, "vname": None, "perms": [], "sdk": (None, None, None),
+                  "comps": [("activity", ".Main", True, [["android.intent.action.VIEW", MAIN, "android.intent.category.DEFAULT", LAUNCHER]], True)],
+                  "features": ["android.hardware.camera", None, "android.hardware.type.watch"], "libs": [None, "org.apache.http.legacy"], "ns_on_tags": False})
+    cases.append({"package": "org.demo.app", "vcode": 1, "vname": None, "perms": [], "sdk": (None, None, None),
+                  "comps": [("activity", ".Zeta", True, [[MAIN, LAUNCHER]], True), ("activity", ".Alpha", True, [["android.intent.category.LEANBACK_LAUNCHER", LAUNCHER, MAIN]], True),
+                            ("service", None, True, [], True)],
+                  "features": [None], "libs": [], "ns_on_tags": False})
     for _ in range(200 if tier == "thorough" else 45):
         perms = []
         for _ in range(rng.choice((0, 1, 2, 4))):
@@ -63,12 +70,15 @@ def gen(rng, tier, ctx):
                     f.append(LAUNCHER)
                 if rng.random() < 0.3:
                     f.append("android.intent.action.VIEW")
+                if rng.random() < 0.3:
+                    f.append(rng.choice(("android.intent.category.DEFAULT", "android.intent.category.LEANBACK_LAUNCHER")))
+                rng.shuffle(f)                     # MAIN and LAUNCHER are not always the first action / category of their filter
                 filters.append(f)
             comps.append((kind, rng.choice(COMPS), rng.random() < 0.9, filters, rng.random() < 0.85))
         sdk = (rng.choice((None, 14, 21)), rng.choice((None, None, 26, 33)), rng.choice((None, None, 34)))
         cases.append({"package": rng.choice(("com.ex.app", "app", "a.b")), "vcode": rng.choice((1, 7, 2**31 - 1)), "vname": rng.choice(("1.0", "2.3-beta", None)),
-                      "perms": perms, "sdk": sdk, "comps": comps, "features": rng.sample(["android.hardware.camera", "android.hardware.type.watch", "glEs"], rng.randint(0, 2)),
-                      "libs": rng.sample(["org.apache.http.legacy", "com.google.android.maps"], rng.randint(0, 2)), "ns_on_tags": rng.random() < 0.1})
+                      "perms": perms, "sdk": sdk, "comps": comps, "features": rng.sample(["android.hardware.camera", "android.hardware.type.watch", "glEs", None], rng.randint(0, 3)),
+                      "libs": rng.sample(["org.apache.http.legacy", "com.google.android.maps", None], rng.randint(0, 2)), "ns_on_tags": rng.random() < 0.1})
     return cases
 
 
@@ -89,12 +99,12 @@ def render(m):
             at.append(a("maxSdkVersion", maxsdk, 0x10) if isinstance(maxsdk, int) else a("maxSdkVersion", maxsdk))
         kids.append(("el", AND if m["ns_on_tags"] else None, "uses-permission", at, []))
     for f in m["features"]:
-        kids.append(("el", None, "uses-feature", [a("name", f)], []))
+        kids.append(("el", None, "uses-feature", [a("name", f)] if f is not None else [a("glEsVersion", 0x00020000, 0x11)], []))
     app = []
     for lib in m["libs"]:
-        app.append(("el", None, "uses-library", [a("name", lib)], []))
+        app.append(("el", None, "uses-library", [a("name", lib)] if lib is not None else [a("required", 0, 0x12)], []))
     for kind, name, prefixed, filters, enabled in m["comps"]:
-        at = [a("name", name) if prefixed else (None, "name", None, 3, name)]
+        at = [a("name", name) if prefixed else (None, "name", None, 3, name)] if name is not None else []
         if not enabled:
             at.append(a("enabled", 0, 0x12))
         fl = []
@@ -133,7 +143,7 @@ def impl(case):
     from androguard.core.apk import APK
     a = APK(build(case), raw=True)
     root = a.get_android_manifest_xml()
-    s = lambda l: sorted(l)
+    s = lambda l: sorted(l, key=lambda x: (x is None, x or ""))
     uses = s((n or "") + "\x00" + ("\x00" if mx is None else "\x01" + chr(mx)) for n, mx in a.uses_permissions)
     return {"tree": walk(root),
             "out": [a.get_package(), a.get_androidversion_code(), a.get_androidversion_name(), s(set(a.get_permissions())), uses,
@@ -180,13 +190,13 @@ def oracle(case, res):
     want = [pkg, str(m["vcode"]), m["vname"], sorted({p for p, _, _ in m["perms"]}),
             sorted(p + "\x00" + ("\x00" if not isinstance(ms, int) else "\x01" + chr(ms)) for p, ms, _ in m["perms"])]
     for kind in ("activity", "service", "receiver", "provider"):
-        want.append(sorted(fmtname(pkg, n) for k, n, _, _, _ in m["comps"] if k == kind))
-    want.append(sorted({n for k, n, _, fl, en in m["comps"] if k in ("activity", "activity-alias") and en and any(MAIN in f and LAUNCHER in f for f in fl)}))
+        want.append(sorted(fmtname(pkg, n) for k, n, _, _, _ in m["comps"] if k == kind and n is not None))     # an element without a name is not listed
+    want.append(sorted({n for k, n, _, fl, en in m["comps"] if k in ("activity", "activity-alias") and en and n is not None and any(MAIN in f and LAUNCHER in f for f in fl)}))
     cands = sorted({fmtname(pkg, n) for n in want[9]})
     acts = set(want[5])
     want.append(None if not cands else ([c for c in cands if c in acts] or cands)[0])
     want += [None if mn is None else str(mn), None if tg is None else str(tg), None if mx is None else str(mx),
-             tg if tg is not None else mn if mn is not None else 1, sorted(m["features"]), sorted(m["libs"])]
+             tg if tg is not None else mn if mn is not None else 1, sorted(f for f in m["features"] if f is not None), sorted(l for l in m["libs"] if l is not None)]
     names = ["package", "version code", "version name", "permissions", "permissions with maxSdkVersion", "activities", "services", "receivers",
              "providers", "main activities", "main activity", "minSdkVersion", "targetSdkVersion", "maxSdkVersion", "effective target SDK", "features", "libraries"]
     for nm, g, w in zip(names, out, want):
